@@ -66,6 +66,11 @@ func runC06(t *sim.T, tier string) *sim.Violation {
 		msg := gen.RichFeedMin(t, 3)
 		b := gen.MarshalFeed(msg)
 		inputs = append(inputs, c06Input{0, b, fmt.Sprintf("rt%d(%dB)", i, len(b))})
+		if t.Chance(1, 4) {
+			if nb, d := gen.ReorderWire(t, b); d != "" {
+				inputs = append(inputs, c06Input{0, nb, fmt.Sprintf("rt%d-reordered(%s)", i, d)})
+			}
+		}
 		if t.Chance(1, 3) && msg.Header != nil {
 			// the same message without a header timestamp (extensions that look at the feed time must not
 			// fall back on what an earlier feed said)
